@@ -173,6 +173,28 @@ fn run<const N: usize>(job: &Value) {
             "debug" => json!({"text": format!("{tgt:?}")}),
             "to_xml" => json!({"text": tgt.to_xml().unwrap()}),
             "to_dot" => json!({"text": tgt.to_dot()}),
+            "slice" | "slice_some" => {
+                // "reject": the edges [from, to, label] the predicate turns down (everything else is accepted)
+                let reject: Vec<(usize, usize, Label)> = c["reject"].as_array().map(|a| {
+                    a.iter().map(|e| (e[0].as_u64().unwrap() as usize, e[1].as_u64().unwrap() as usize, label_from(&e[2]))).collect()
+                }).unwrap_or_default();
+                let r = if op == "slice" { tgt.slice(u("v")) } else {
+                    tgt.slice_some(u("v"), |f, t, l| !reject.iter().any(|(a, b, x)| *a == f && *b == t && *x == l))
+                };
+                match r {
+                    Ok(x) => json!({"ok": true, "slice": snap_to(&x.verif_snapshot())}),
+                    Err(e) => json!({"ok": false, "error": format!("{e:#}")}),
+                }
+            }
+            "merge" => {
+                let h: Sodg<N> = Sodg::verif_restore(&snap_from(&c["right_graph"]));
+                let r = tgt.merge(&h, u("left"), u("right"));
+                let hs = snap_to(&h.verif_snapshot());
+                match r {
+                    Ok(()) => json!({"ok": true, "right_graph_after": hs}),
+                    Err(e) => json!({"ok": false, "error": format!("{e:#}"), "right_graph_after": hs}),
+                }
+            }
             "clone" => {
                 other = Some(tgt.clone());
                 json!({"clone": snap_to(&other.as_ref().unwrap().verif_snapshot())})
